@@ -269,7 +269,7 @@ class _ImmutableTaskList:
         # A one-shot iterable given to _in_ / _not_in_ is read once, not once per task
         kwargs = {k: (list(v) if k.endswith('_in_') and iter(v) is v else v) for k, v in kwargs.items()}
 
-        def search(t, **kw):
+        def search(t, kw):
             for k, v in kw.items():
                 if k.endswith("_not_like_"):
                     k = k[0:-10]
@@ -329,7 +329,7 @@ class _ImmutableTaskList:
             return True
 
         # A callable filter and keyword filters may be combined: a task is selected when every filter holds
-        return _ImmutableTaskList([t for t in self if (key is None or key(t)) and search(t, **kwargs)])
+        return _ImmutableTaskList([t for t in self if (key is None or key(t)) and search(t, kwargs)])
 
     def order_by(self, key: Union[str, List[str]], reverse=False) -> '_ImmutableTaskList':
 
